@@ -928,7 +928,13 @@ func (o Object) Equals(with Item) bool {
 				result = false
 				return nil
 			}
-			if !w.URL.GetLink().Equals(o.URL.GetLink(), false) {
+			if IsItemCollection(w.URL) || IsItemCollection(o.URL) {
+				// a list of URLs has no link of its own, compare the members
+				if !ItemsEqual(o.URL, w.URL) {
+					result = false
+					return nil
+				}
+			} else if !w.URL.GetLink().Equals(o.URL.GetLink(), false) {
 				result = false
 				return nil
 			}
